@@ -53,13 +53,13 @@ def image_specs(k, level, seed=0):
     return out
 
 
-def make_product(root, k=2, level="1.5", seed=0, fs=None, **leader_kw):
+def make_product(root, k=2, level="1.5", seed=0, fs=None, images=None, **leader_kw):
     import fsspec
 
     from native import synth
 
     fs = fs or fsspec.filesystem("memory")
-    images = image_specs(k, level, seed)
+    images = images if images is not None else image_specs(k, level, seed)
     names = synth.product(fs, root, images, level=level, **leader_kw)
     return fs, images, names
 
